@@ -289,7 +289,8 @@ def _undo_threading(ctx, m, rep, cl):
     for f_ in (f_addr, p.find_function("FileAnonymizer.__init__"), p.find_function("anonymize_files")):
         for pn, d in f_.defaults.items():
             if "undo" in pn:
-                okd = isinstance(d, ast.Constant) and d.value is False
+                okv, dv = ctx.folder.try_eval(d, f_.module)
+                okd = (isinstance(d, ast.Constant) and d.value is False) or (okv and dv is False)  # a named constant that folds to False is the same default
                 rep.ob(cl + ".undo-default", "%s(%s)" % (f_.name, pn), okd, "default of %s in %s is %s; a call that does not give the direction must anonymize, not undo" % (pn, f_.qualname, ast.unparse(d)), where(f_, d), key="%s.undo-default|%s" % (cl, f_.name))
     # FileAnonymizer.anonymize_io: both IP call sites receive self.undo_ip_anon
     f_io = p.find_function("FileAnonymizer.anonymize_io")
@@ -355,7 +356,8 @@ def _ip_stage_condition(ctx, m, rep, cl):
         for t, pol, _ in path.conds:
             leaves = {s for s in subterms(t) if s in (("param", "anon_ip"), ("param", "undo_ip_anon"))}
             if leaves:
-                cond = (t, pol)
+                t, neg = type(path)._norm_atom(t)  # `if not enabled: return None` is the same decision with the arms swapped
+                cond = (t, (not pol) if neg else pol)
         key = (show(cond[0]), cond[1]) if cond else None
         created_when.setdefault(key, set()).update(made or {"-"})
     ok = False
@@ -598,8 +600,83 @@ def _cli_defaults(ctx, rep, cl):
                 rep.ob(cl + ".binding", "IpV6Anonymizer(preserve_suffix)", v == ("param", "preserve_suffix_v6"), "IpV6Anonymizer(preserve_suffix=%s); expected preserve_suffix_v6" % show(v), cs.where, key="%s.binding|IpV6Anonymizer:preserve_suffix" % cl)
 
 
+def _fold_term(ctx, t):
+    """(True, value) for a term that denotes a compile-time constant (constants, displays, class/module constants, sep.join of those)."""
+    from .fold import Unfoldable
+    if t[0] == "const":
+        return True, t[1]
+    if t[0] in ("list", "tuple"):
+        vals = [_fold_term(ctx, x) for x in t[1]]
+        if all(ok for ok, _ in vals):
+            return True, [v for _, v in vals] if t[0] == "list" else tuple(v for _, v in vals)
+        return False, None
+    try:
+        if t[0] == "global" and t[1] in ctx.p.modules:
+            r = ctx.p.resolve_module_name(ctx.p.modules[t[1]], t[2])
+            if r and r[0] == "const":
+                return True, ctx.folder.module_const(r[1].name, r[2])
+        if t[0] == "attr" and t[1][0] == "global" and t[1][1] in ctx.p.modules:
+            r = ctx.p.resolve_module_name(ctx.p.modules[t[1][1]], t[1][2])
+            if r and r[0] == "class":
+                return True, ctx.folder.class_const(r[1], t[2])
+    except Unfoldable:
+        return False, None
+    if M.is_call(t) and t[1][0] == "attr" and t[1][2] == "join" and len(t[2]) == 1 and not t[3]:
+        oks, sep = _fold_term(ctx, t[1][1])
+        oka, arg = _fold_term(ctx, t[2][0])
+        if oks and oka and isinstance(sep, str) and isinstance(arg, (list, tuple)) and all(isinstance(x, str) for x in arg):
+            return True, sep.join(arg)
+    return False, None
+
+
+def _cli_options_from_effects(ctx):
+    """The add_argument calls as they are actually made: read off the call effects of _parse_args after helper inlining and
+    table-loop unrolling, so declarations made through a helper, a table of specs or **kwargs are seen like literal ones."""
+    p, A = ctx.p, ctx.A
+    f = p.find_function("_parse_args")
+    out = {}
+    for e, ls, path in A.paths(f).all_effects():
+        if e.kind != "call" or not (e.a[1][0] == "attr" and e.a[1][2] == "add_argument"):
+            continue
+        if any(a[0] == "star" for a in e.a[2]) or any(k is None for k, _ in e.a[3]):
+            return None  # an argument list that is not known statically
+        flags = [a[1] for a in e.a[2] if a[0] == "const" and isinstance(a[1], str)]
+        longs = [x for x in flags if x.startswith("--")]
+        kw = {}
+        for k, v in e.a[3]:
+            ok, val = _fold_term(ctx, v)
+            if ok:
+                kw[k] = ("ok", val)
+            elif v[0] == "global":
+                kw[k] = ("node", v[2])
+            else:
+                kw[k] = ("node", show(v))
+        name = longs[0] if longs else (flags[0] if flags else "?")
+        dest = kw.get("dest", ("ok", None))[1] or (longs[0][2:].replace("-", "_") if longs else name.lstrip("-"))
+        node = e.node
+        out[name] = {
+            "kwargs": sorted(k for k, _ in e.a[3]), "env_var": kw.get("env_var"), "nargs": kw.get("nargs"), "const": kw.get("const"),
+            "flags": flags, "longs": longs, "default": kw.get("default", ("absent", None)), "type": kw.get("type"),
+            "action": kw.get("action"), "required": kw.get("required"), "is_config_file": kw.get("is_config_file"),
+            "choices": kw.get("choices"), "dest": dest, "where": "%s:%d (_parse_args)" % (f.module.relpath, getattr(node, "lineno", f.node.lineno)), "node": node,
+        }
+    return out
+
+
 def cli_options(ctx):
     """Fold the add_argument calls of _parse_args: {option: {flags, default, type, action, required, dest, ...}}."""
+    cached = ctx.__dict__.get("_cli_options")
+    if cached is not None:
+        return cached
+    eff = _cli_options_from_effects(ctx)
+    lit = _cli_options_literal(ctx)
+    res = eff if (eff is not None and len(eff) >= len(lit)) else lit
+    ctx.__dict__["_cli_options"] = res
+    return res
+
+
+def _cli_options_literal(ctx):
+    """add_argument calls written out literally in _parse_args and the helpers it calls."""
     p, A, G, folder = ctx.p, ctx.A, ctx.G, ctx.folder
     f = p.find_function("_parse_args")
     out = {}
@@ -957,6 +1034,10 @@ def _mask_idiom(r, x):
                                 return True
                             if v == ("const", 1) and u == ("unop", "~", d):
                                 return True
+                            if v == ("const", 1) and u == ("binop", "-", ("const", 0xFFFFFFFF), d):
+                                return True  # 0xFFFFFFFF - d == 0xFFFFFFFF ^ d for 0 <= d <= 0xFFFFFFFF (d is masked with 0x7FFFFFFF)
+                    if a == d and b == ("binop", "-", ("const", 0x100000000), d):
+                        return True  # 2**32 - d: the same two's complement
                         if b == ("unop", "-", d):
                             return True
             # B: (d & (d - 1)) == 0
